@@ -525,6 +525,9 @@ pub fn err_kind(e: &Error) -> ErrKind {
 }
 
 pub fn tmp_dir() -> String {
+    if let Ok(d) = std::env::var("VH_TMP_OVERRIDE") {
+        return d;
+    }
     let d = format!("/verif/target/tmp/{}", std::process::id());
     let _ = std::fs::create_dir_all(&d);
     d
